@@ -22,7 +22,7 @@ def c01():
     j.append(K("c01_window::c01_empty_yields_nothing", "empty()/default(): every observer, symbolic index", encodes=WIN_FNS, cost=1))
     j.append(K("c01_window::c01_empty_last", "empty(): iter().last()/iter_rev().last() is None or panics",
                allow=[PANIC_OOB], encodes=WIN_FNS, cost=1))
-    j.append(K("c01_window::c01_empty_index_panics", "empty(): Index never returns", allow=[PANIC_INDEX], encodes=WIN_FNS, cost=1))
+    j.append(K("c01_window::c01_empty_index_panics", "empty(): Index never returns (either panic message is a panic)", allow=[PANIC_INDEX, PANIC_OOB], encodes=WIN_FNS, cost=1))
     j.append(K("c01_window::c01_from_vec", "From<Vec>/From<Box<[T]>>, length symbolic 1..=32", encodes=WIN_FNS, cost=7))
     j.append(K("c01_window::c01_from_parts_bad_index_panics", "from_parts with index >= len (len 0..=8) never returns",
                allow=[r"Index is out of slice's range"], encodes=WIN_FNS, cost=2))
